@@ -12,30 +12,64 @@ EXPECT_PROBES = ["diff:pw", "diff:ids", "diff:pset", "altered-one", "altered-bot
 COORD_SUFFIX = ["dup", "dst_body", "zero", "rand"]
 
 
+def near_miss(rng, v):
+    """a byte string an application-level normalisation might confuse with v"""
+    c = rng.randrange(7)
+    try:
+        if c == 0 and any(b >= 0x80 for b in v):
+            return v.decode("latin-1").encode("utf-8")
+        if c == 1:
+            return v.decode("utf-8").encode("latin-1")
+    except (UnicodeDecodeError, UnicodeEncodeError):
+        pass
+    if c == 2:
+        return v + b"\x00"
+    if c == 3 and v.endswith(b"\x00"):
+        return v.rstrip(b"\x00")
+    if c == 4:
+        return v.swapcase()
+    if c == 5:
+        return v + b" "
+    if c == 6 and v:
+        return v.hex().encode("ascii")
+    return v + b"\x01"
+
+
 def _differ(rng, cfg, kinds):
     """apply 1..3 configuration differences to node 1; returns the list applied"""
     a, b = cfg["nodes"][0], cfg["nodes"][1]
     done = []
     for kind in kinds:
         if kind == "pw":
-            while True:
+            if rng.random() < 0.3:
+                v = near_miss(rng, bytes.fromhex(a["pw"])).hex()
+            else:
+                v = a["pw"]
+            while v == a["pw"]:
                 v = gen.gen_bytes(rng).hex()
-                if v != a["pw"]:
-                    break
             b["pw"] = v
             done.append("pw")
         elif kind == "ids":
             if a["cls"] == "S":
-                while True:
+                v = a.get("idS", "")
+                if rng.random() < 0.4:
+                    v = near_miss(rng, bytes.fromhex(v)).hex()
+                while v == a.get("idS", ""):
                     v = gen.gen_bytes(rng).hex()
-                    if v != a.get("idS", ""):
-                        break
                 b["idS"] = v
                 done.append("idS")
             else:
                 ida, idb = bytes.fromhex(a.get("idA", "")), bytes.fromhex(a.get("idB", ""))
-                c = rng.randrange(6)
-                if c == 0 and ida != idb:
+                c = rng.randrange(8)
+                if c >= 6:
+                    which = rng.choice(["idA", "idB"])
+                    old = ida if which == "idA" else idb
+                    v = near_miss(rng, old)
+                    if v == old:
+                        v = old + b"x"
+                    b[which] = v.hex()
+                    done.append(which + "-near")
+                elif c == 0 and ida != idb:
                     b["idA"], b["idB"] = idb.hex(), ida.hex()
                     done.append("swap")
                 elif c == 1 and len(ida + idb) >= 1:
@@ -123,7 +157,7 @@ def generate(rng, tier="quick"):
     if mode in ("config", "both"):
         kinds = rng.sample(["pw", "ids", "pset"], rng.choice([1, 1, 2, 3]))
         applied = _differ(rng, cfg, kinds)
-    pc = rng.choice([0.0, 0.0, 0.3, 0.6])
+    pc = rng.choice([0.0, 0.0, 0.3, 0.6, 0.9])
     lives = [gen.gen_lifecycle(rng, 0, 2, pc), gen.gen_lifecycle(rng, 1, 2, pc)]
     if third:
         lives.append([{"op": "boot", "n": 2}, {"op": "start", "n": 2}])
